@@ -5,6 +5,7 @@ import (
 	"encoding/binary"
 	"encoding/hex"
 	"fmt"
+	"io"
 
 	"github.com/hujm2023/go-sms-protocol/verifhook"
 )
@@ -92,6 +93,11 @@ func (p *Reader) ReadCStringN(n int) string {
 		return ""
 	}
 
+	if n > p.buffer.Len() {
+		p.opError = newPacketError(io.ErrUnexpectedEOF, "ReadCStringN read")
+		return ""
+	}
+
 	temp := make([]byte, n)
 
 	r, err := p.buffer.Read(temp)
@@ -119,6 +125,11 @@ func (p *Reader) ReadCStringNWithoutTrim(n int) string {
 	}
 
 	if n <= 0 {
+		return ""
+	}
+
+	if n > p.buffer.Len() {
+		p.opError = newPacketError(io.ErrUnexpectedEOF, "ReadCStringN read")
 		return ""
 	}
 
@@ -163,6 +174,11 @@ func (p *Reader) ReadNBytes(n int) []byte {
 	}
 
 	if n <= 0 {
+		return nil
+	}
+
+	if n > p.buffer.Len() {
+		p.opError = newPacketError(io.ErrUnexpectedEOF, "ReadNBytes read")
 		return nil
 	}
 
